@@ -53,7 +53,9 @@ impl RandomAccess for FaultFile {
             Fault::Short(k) => k.min(normal),
             _ => normal,
         };
-        dst[..n].copy_from_slice(&self.data[off..off + n]);
+        if n > 0 {
+            dst[..n].copy_from_slice(&self.data[off..off + n]);
+        }
         Ok(n)
     }
 }
